@@ -1,6 +1,8 @@
 // Command gen/c10 prints coq/Gen/C10Facts.v from the /repo working tree: structural facts about the
-// oracle price path (terms, never verdicts).  Normal forms are chosen so that renamings, helper
-// extraction, if/switch restructuring and early-continue rewrites do not change them.
+// oracle price path (terms, never verdicts).  Whole packages are parsed (new files included), helper
+// calls are followed transitively, pure helpers are inlined with parameter substitution, guards are read
+// as path conditions — so renamings, helper extraction, if/switch restructuring, early-continue rewrites
+// and moved functions do not change the extracted record.
 package main
 
 import (
@@ -12,163 +14,15 @@ import (
 	. "verifharness/genlib"
 )
 
-// ---------------------------------------------------------------- generic helpers
-
-// noTestUtils drops test helper files that are not named *_test.go.
-func noTestUtils(fs []File) []File {
-	var out []File
-	for _, f := range fs {
-		if !strings.HasSuffix(f.Path, "test_utils.go") {
-			out = append(out, f)
-		}
-	}
-	return out
-}
-
-func recvName(fd *ast.FuncDecl) string {
-	if fd.Recv != nil && len(fd.Recv.List) > 0 && len(fd.Recv.List[0].Names) > 0 {
-		return fd.Recv.List[0].Names[0].Name
-	}
-	return ""
-}
-
-func recvType(fd *ast.FuncDecl) string {
-	if fd.Recv == nil || len(fd.Recv.List) == 0 {
-		return ""
-	}
-	t := fd.Recv.List[0].Type
-	if s, ok := t.(*ast.StarExpr); ok {
-		t = s.X
-	}
-	if id, ok := t.(*ast.Ident); ok {
-		return id.Name
-	}
-	return ""
-}
-
-func method(files []File, typ, name string) *ast.FuncDecl {
-	for _, fl := range files {
-		for _, d := range fl.F.Decls {
-			if fd, ok := d.(*ast.FuncDecl); ok && fd.Name.Name == name && recvType(fd) == typ && fd.Body != nil {
-				return fd
-			}
-		}
-	}
-	return nil
-}
-
-func strip(e ast.Expr) ast.Expr {
-	for {
-		p, ok := e.(*ast.ParenExpr)
-		if !ok {
-			return e
-		}
-		e = p.X
-	}
-}
-
-func isConv(e ast.Expr) bool {
-	e = strip(e)
-	id, ok := e.(*ast.Ident)
-	return ok && (id.Name == "uint64" || id.Name == "int64" || id.Name == "int" || id.Name == "uint")
-}
-
-// sexp prints a fully parenthesised prefix form; integer conversions are dropped, identifiers are
-// renamed / inlined through sub, selectors listed in bare lose their qualifier.
-func sexp(e ast.Expr, sub map[string]ast.Expr, ren map[string]string, bare map[string]bool, depth int) string {
-	e = strip(e)
-	switch x := e.(type) {
-	case *ast.Ident:
-		if depth < 6 {
-			if d, ok := sub[x.Name]; ok {
-				return sexp(d, sub, ren, bare, depth+1)
-			}
-		}
-		if r, ok := ren[x.Name]; ok {
-			return r
-		}
-		return x.Name
-	case *ast.BasicLit:
-		return x.Value
-	case *ast.BinaryExpr:
-		return "(" + x.Op.String() + " " + sexp(x.X, sub, ren, bare, depth) + " " + sexp(x.Y, sub, ren, bare, depth) + ")"
-	case *ast.UnaryExpr:
-		return "(" + x.Op.String() + " " + sexp(x.X, sub, ren, bare, depth) + ")"
-	case *ast.SelectorExpr:
-		if bare[x.Sel.Name] {
-			return x.Sel.Name
-		}
-		return sexp(x.X, sub, ren, bare, depth) + "." + x.Sel.Name
-	case *ast.CallExpr:
-		if isConv(x.Fun) && len(x.Args) == 1 {
-			return sexp(x.Args[0], sub, ren, bare, depth)
-		}
-		if s, ok := x.Fun.(*ast.SelectorExpr); ok && s.Sel.Name == "BlockHeight" && len(x.Args) == 0 {
-			return "H"
-		}
-		var as []string
-		for _, a := range x.Args {
-			as = append(as, sexp(a, sub, ren, bare, depth))
-		}
-		return "call(" + sexp(x.Fun, sub, ren, bare, depth) + ";" + strings.Join(as, ",") + ")"
-	}
-	return "?" + Nospace(e)
-}
-
-// simpleDefs collects `x := e` (single value) definitions of a function body.
-func simpleDefs(body *ast.BlockStmt) map[string]ast.Expr {
-	m := map[string]ast.Expr{}
-	ast.Inspect(body, func(n ast.Node) bool {
-		if a, ok := n.(*ast.AssignStmt); ok && a.Tok == token.DEFINE && len(a.Lhs) == 1 && len(a.Rhs) == 1 {
-			if id, ok := a.Lhs[0].(*ast.Ident); ok {
-				m[id.Name] = a.Rhs[0]
-			}
-		}
-		return true
-	})
-	return m
-}
-
-func conjuncts(e ast.Expr, op token.Token) []ast.Expr {
-	e = strip(e)
-	if b, ok := e.(*ast.BinaryExpr); ok && b.Op == op {
-		return append(conjuncts(b.X, op), conjuncts(b.Y, op)...)
-	}
-	return []ast.Expr{e}
-}
-
-func callSel(e ast.Expr) (recv ast.Expr, name string, args []ast.Expr, ok bool) {
-	c, isCall := strip(e).(*ast.CallExpr)
-	if !isCall {
-		return nil, "", nil, false
-	}
-	s, isSel := c.Fun.(*ast.SelectorExpr)
-	if !isSel {
-		return nil, "", nil, false
-	}
-	return s.X, s.Sel.Name, c.Args, true
-}
-
-func coqList(xs []string) string {
-	var q []string
-	for _, x := range xs {
-		q = append(q, CoqString(x))
-	}
-	return "[" + strings.Join(q, "; ") + "]"
-}
-
-// ---------------------------------------------------------------- facts
-
 var stages = map[string]bool{"newValidatorPerformances": true, "groupVotesByPair": true, "removeInvalidVotes": true,
 	"clearExchangeRates": true, "Tally": true, "SetPrice": true, "incrementMissCounters": true,
 	"incrementAbstainsByOmission": true, "rewardWinners": true, "clearVotesAndPrevotes": true, "refreshWhitelist": true}
 
 // pipeline: the stage calls reached from fd in source order, helpers of the package inlined.
-func pipeline(fd *ast.FuncDecl, kf map[string]*ast.FuncDecl) []string {
+func pipeline(p *pkg, fd *ast.FuncDecl) []string {
 	var seq []string
-	var walk func(fd *ast.FuncDecl, depth int, seen map[string]bool)
-	walk = func(fd *ast.FuncDecl, depth int, seen map[string]bool) {
-		rn := recvName(fd)
+	var walk func(fd *ast.FuncDecl, depth int, seen map[*ast.FuncDecl]bool)
+	walk = func(fd *ast.FuncDecl, depth int, seen map[*ast.FuncDecl]bool) {
 		ast.Inspect(fd.Body, func(n ast.Node) bool {
 			if _, ok := n.(*ast.FuncLit); ok {
 				return false
@@ -182,51 +36,45 @@ func pipeline(fd *ast.FuncDecl, kf map[string]*ast.FuncDecl) []string {
 			case *ast.Ident:
 				name = f.Name
 			case *ast.SelectorExpr:
-				if id, ok := f.X.(*ast.Ident); ok && id.Name == rn {
-					name = f.Sel.Name
-				}
+				name = f.Sel.Name
 			}
-			if name == "" {
-				return true
-			}
-			if stages[name] {
+			d := p.resolve(ce)
+			if stages[name] && d != nil {
 				seq = append(seq, name)
 				return true
 			}
-			if d, ok := kf[name]; ok && d.Body != nil && depth < 4 && !seen[name] {
-				seen[name] = true
+			if d != nil && depth < 5 && !seen[d] {
+				seen[d] = true
 				walk(d, depth+1, seen)
-				delete(seen, name)
+				delete(seen, d)
 			}
 			return true
 		})
 	}
-	walk(fd, 0, map[string]bool{fd.Name.Name: true})
+	walk(fd, 0, map[*ast.FuncDecl]bool{fd: true})
 	return seq
 }
 
-func earlyReturns(fd *ast.FuncDecl) int {
-	n := 0
-	var last ast.Stmt
-	if l := len(fd.Body.List); l > 0 {
-		last = fd.Body.List[l-1]
+// guardsOf: number of non-error path conditions on the first call of `name` reached from fd
+// (in the function that contains the call).
+func guardsOf(p *pkg, fd *ast.FuncDecl, name string) int {
+	owner, call := p.findCall(fd, name, nil)
+	if call == nil {
+		return 99
 	}
-	ast.Inspect(fd.Body, func(x ast.Node) bool {
-		if _, ok := x.(*ast.FuncLit); ok {
-			return false
-		}
-		if r, ok := x.(*ast.ReturnStmt); ok && ast.Stmt(r) != last {
+	n := 0
+	for _, l := range p.literals(pathConds(owner.Body, call)) {
+		if !isErrCond(l.e) {
 			n++
 		}
-		return true
-	})
+	}
 	return n
 }
 
-// thresholdRounding: the method applied to the result of ….MulInt64(…) in removeInvalidVotes.
-func thresholdRounding(fd *ast.FuncDecl) (round string, fromVoteThreshold bool) {
+// thresholdRounding: the method applied to the result of ….MulInt64(…) on the way from removeInvalidVotes.
+func thresholdRounding(p *pkg, fd *ast.FuncDecl) (round string, fromVoteThreshold bool) {
 	round = "RoundOther"
-	ast.Inspect(fd.Body, func(n ast.Node) bool {
+	p.inspectClosure(fd, func(_ *ast.FuncDecl, n ast.Node) bool {
 		recv, name, _, ok := callSelNode(n)
 		if !ok {
 			return true
@@ -245,32 +93,44 @@ func thresholdRounding(fd *ast.FuncDecl) (round string, fromVoteThreshold bool) 
 	return
 }
 
-func callSelNode(n ast.Node) (ast.Expr, string, []ast.Expr, bool) {
-	e, ok := n.(ast.Expr)
-	if !ok {
-		return nil, "", nil, false
+// groupFacts: (1) the power variable zeroed for abstain votes is (re)defined inside the loop over the
+// ExchangeRateTuples; (2) the vote is only appended if the voter was found in the performance map.
+func groupFacts(p *pkg, fd *ast.FuncDecl) (perTuple, skipsIneligible bool) {
+	owner, app := p.findCall(fd, "append", nil)
+	if app == nil {
+		return
 	}
-	return callSel(e)
-}
-
-// powerPerTuple: in groupVotesByPair the variable that is zeroed for abstain votes is (re)defined
-// inside the loop over the ExchangeRateTuples.
-func powerPerTuple(fd *ast.FuncDecl) bool {
 	zeroed := ""
-	ast.Inspect(fd.Body, func(n ast.Node) bool {
-		if a, ok := n.(*ast.AssignStmt); ok && a.Tok == token.ASSIGN && len(a.Lhs) == 1 && len(a.Rhs) == 1 {
+	okVars := map[string]bool{} // second results of `x, ok := m[k]`
+	ast.Inspect(owner.Body, func(n ast.Node) bool {
+		a, ok := n.(*ast.AssignStmt)
+		if !ok {
+			return true
+		}
+		if a.Tok == token.ASSIGN && len(a.Lhs) == 1 && len(a.Rhs) == 1 {
 			if l, ok := a.Rhs[0].(*ast.BasicLit); ok && l.Value == "0" {
 				if id, ok := a.Lhs[0].(*ast.Ident); ok {
 					zeroed = id.Name
 				}
 			}
 		}
+		if len(a.Lhs) == 2 && len(a.Rhs) == 1 {
+			if _, ok := a.Rhs[0].(*ast.IndexExpr); ok {
+				if id, ok := a.Lhs[1].(*ast.Ident); ok {
+					okVars[id.Name] = true
+				}
+			}
+		}
 		return true
 	})
-	if zeroed == "" {
-		return false
+	for _, l := range p.literals(pathConds(owner.Body, app)) {
+		if id, ok := l.e.(*ast.Ident); ok && okVars[id.Name] && l.pos {
+			skipsIneligible = true
+		}
 	}
-	res := false
+	if zeroed == "" {
+		return
+	}
 	var stack []*ast.RangeStmt
 	var visit func(n ast.Node)
 	visit = func(n ast.Node) {
@@ -287,74 +147,53 @@ func powerPerTuple(fd *ast.FuncDecl) bool {
 			if a, ok := x.(*ast.AssignStmt); ok && a.Tok == token.DEFINE && len(a.Lhs) == 1 {
 				if id, ok := a.Lhs[0].(*ast.Ident); ok && id.Name == zeroed && len(stack) > 0 {
 					if strings.HasSuffix(Nospace(stack[len(stack)-1].X), "ExchangeRateTuples") {
-						res = true
+						perTuple = true
 					}
 				}
 			}
 			return true
 		})
 	}
-	visit(fd.Body)
-	return res
+	visit(owner.Body)
+	return
 }
 
-// median: facts about the weighted-median loop (followed through a helper method of the same type).
 type medianFacts struct {
 	sorts, guard, halfDiv2, accumulates bool
 	cmp                               string
 }
 
-func median(fd *ast.FuncDecl, tf []File) medianFacts {
-	var mf medianFacts
-	mf.cmp = "CmpOther"
-	mf.sorts = strings.Contains(Nospace(fd.Body), "sort.Sort(")
-	// find the function that holds the loop
-	holder := fd
-	findLoop := func(f *ast.FuncDecl) (*ast.RangeStmt, *ast.IfStmt) {
-		var rs *ast.RangeStmt
-		var is *ast.IfStmt
-		ast.Inspect(f.Body, func(n ast.Node) bool {
-			r, ok := n.(*ast.RangeStmt)
-			if !ok || rs != nil {
-				return true
-			}
-			ast.Inspect(r.Body, func(m ast.Node) bool {
-				i, ok := m.(*ast.IfStmt)
-				if !ok || is != nil {
-					return true
-				}
-				for _, s := range i.Body.List {
-					if ret, ok := s.(*ast.ReturnStmt); ok && len(ret.Results) == 1 && strings.HasSuffix(Nospace(ret.Results[0]), ".ExchangeRate") {
-						is = i
-					}
-				}
-				return true
-			})
-			if is != nil {
-				rs = r
-			}
+// median: facts about the weighted-median loop, wherever in the call closure it lives.
+func median(p *pkg, fd *ast.FuncDecl) medianFacts {
+	mf := medianFacts{cmp: "CmpOther"}
+	var holder *ast.FuncDecl
+	var rs *ast.RangeStmt
+	var is *ast.IfStmt
+	p.inspectClosure(fd, func(o *ast.FuncDecl, n ast.Node) bool {
+		if c, ok := n.(*ast.CallExpr); ok && Nospace(c.Fun) == "sort.Sort" {
+			mf.sorts = true
+		}
+		r, ok := n.(*ast.RangeStmt)
+		if !ok || rs != nil {
 			return true
-		})
-		return rs, is
-	}
-	rs, is := findLoop(holder)
-	if rs == nil {
-		rn := recvName(fd)
-		ast.Inspect(fd.Body, func(n ast.Node) bool {
-			recv, name, _, ok := callSelNode(n)
-			if !ok || rs != nil {
+		}
+		ast.Inspect(r.Body, func(m ast.Node) bool {
+			i, ok := m.(*ast.IfStmt)
+			if !ok || is != nil {
 				return true
 			}
-			if id, ok := recv.(*ast.Ident); ok && id.Name == rn {
-				if h := method(tf, recvType(fd), name); h != nil {
-					if r2, i2 := findLoop(h); r2 != nil {
-						holder, rs, is = h, r2, i2
-					}
+			for _, s := range i.Body.List {
+				if ret, ok := s.(*ast.ReturnStmt); ok && len(ret.Results) == 1 && strings.HasSuffix(Nospace(ret.Results[0]), ".ExchangeRate") {
+					is = i
 				}
 			}
 			return true
 		})
-	}
+		if is != nil {
+			rs, holder = r, o
+		}
+		return true
+	})
 	if rs == nil {
 		return mf
 	}
@@ -382,7 +221,7 @@ func median(fd *ast.FuncDecl, tf []File) medianFacts {
 		l, ok := strip(b.Y).(*ast.BasicLit)
 		return ok && l.Value == "2" && strings.Contains(Nospace(b.X), "ower")
 	}
-	for _, c := range conjuncts(is.Cond, token.LAND) {
+	for _, c := range split(is.Cond, token.LAND) {
 		b, ok := c.(*ast.BinaryExpr)
 		if !ok {
 			continue
@@ -406,15 +245,21 @@ func median(fd *ast.FuncDecl, tf []File) medianFacts {
 	return mf
 }
 
-// tallyUpper: form of the upper band test in Tally.
-func tallyForm(fd *ast.FuncDecl) (lowerOK bool, upper string, halved bool) {
+// tallyForm: the two band tests and the halving of the band, anywhere in the call closure of Tally.
+func tallyForm(p *pkg, fd *ast.FuncDecl) (lowerOK bool, upper string, halved bool) {
 	upper = "TallyOther"
-	ast.Inspect(fd.Body, func(n ast.Node) bool {
+	p.inspectClosure(fd, func(_ *ast.FuncDecl, n ast.Node) bool {
+		if c, ok := n.(*ast.CallExpr); ok {
+			if recv, name, args, ok := callSel(c); ok && name == "QuoInt64" && len(args) == 1 && Nospace(args[0]) == "2" &&
+				strings.HasSuffix(strings.ToLower(Nospace(recv)), "band") {
+				halved = true
+			}
+		}
 		b, ok := n.(*ast.BinaryExpr)
 		if !ok || b.Op != token.LAND {
 			return true
 		}
-		for _, c := range conjuncts(b, token.LAND) {
+		for _, c := range split(b, token.LAND) {
 			recv, name, args, ok := callSel(c)
 			if !ok || len(args) != 1 {
 				continue
@@ -434,65 +279,92 @@ func tallyForm(fd *ast.FuncDecl) (lowerOK bool, upper string, halved bool) {
 		}
 		return true
 	})
-	halved = strings.Contains(Nospace(fd.Body), "and.QuoInt64(2)")
 	return
+}
+
+// gateOf: the period gates on the path to the call of `name` in EndBlocker, e.g. ["+VotePeriod"].
+func gateOf(p *pkg, fd *ast.FuncDecl, name string) []string {
+	owner, call := p.findCall(fd, name, nil)
+	if call == nil {
+		return []string{"missing"}
+	}
+	var out []string
+	for _, l := range p.literals(pathConds(owner.Body, call)) {
+		if isErrCond(l.e) {
+			continue
+		}
+		sign := "+"
+		if !l.pos {
+			sign = "-"
+		}
+		if c, ok := l.e.(*ast.CallExpr); ok && strings.HasSuffix(Nospace(c.Fun), "IsPeriodLastBlock") && len(c.Args) == 2 {
+			a := Nospace(c.Args[1])
+			if i := strings.LastIndex(a, "."); i >= 0 {
+				a = a[i+1:]
+			}
+			out = append(out, sign+a)
+		} else {
+			out = append(out, sign+"other:"+Nospace(l.e))
+		}
+	}
+	return out
 }
 
 func main() {
 	repo := Repo()
 	Header(repo)
-	keeper := noTestUtils(ParseDir(repo + "/x/oracle/keeper"))
-	types := ParseDir(repo + "/x/oracle/types")
-	kf := Funcs(keeper)
-	tfm := Funcs(types)
+	kp := loadPkg(repo + "/x/oracle/keeper")
+	tp := loadPkg(repo + "/x/oracle/types")
+	ap := loadPkg(repo + "/x/oracle")
 
 	var pipe []string
-	early := 99
-	if fd := kf["UpdateExchangeRates"]; fd != nil && fd.Body != nil {
-		pipe = pipeline(fd, kf)
-		early = earlyReturns(fd)
+	clearGuards := 99
+	if fd := kp.fn("UpdateExchangeRates", "Keeper"); fd != nil {
+		pipe = pipeline(kp, fd)
+		clearGuards = guardsOf(kp, fd, "clearVotesAndPrevotes")
 	}
 	round, fromThr := "RoundOther", false
-	if fd := kf["removeInvalidVotes"]; fd != nil && fd.Body != nil {
-		round, fromThr = thresholdRounding(fd)
+	if fd := kp.fn("removeInvalidVotes"); fd != nil {
+		round, fromThr = thresholdRounding(kp, fd)
 	}
-	ppt := false
-	if fd := kf["groupVotesByPair"]; fd != nil && fd.Body != nil {
-		ppt = powerPerTuple(fd)
+	ppt, skips := false, false
+	if fd := kp.fn("groupVotesByPair"); fd != nil {
+		ppt, skips = groupFacts(kp, fd)
 	}
-	var mf medianFacts
-	mf.cmp = "CmpOther"
-	if fd := method(types, "ExchangeRateVotes", "WeightedMedianWithAssertion"); fd != nil {
-		mf = median(fd, types)
+	mf := medianFacts{cmp: "CmpOther"}
+	if fd := tp.fn("WeightedMedianWithAssertion", "ExchangeRateVotes"); fd != nil {
+		mf = median(tp, fd)
 	}
 	gate := ""
-	if fd := tfm["IsPeriodLastBlock"]; fd != nil && fd.Body != nil && len(fd.Body.List) > 0 {
+	if fd := tp.fn("IsPeriodLastBlock"); fd != nil && len(fd.Body.List) > 0 {
 		ren := map[string]string{}
-		i := 0
-		for _, f := range fd.Type.Params.List {
-			for _, n := range f.Names {
-				ren[n.Name] = fmt.Sprintf("P%d", i)
-				i++
-			}
+		for i, n := range paramNames(fd) {
+			ren[n] = fmt.Sprintf("P%d", i)
 		}
 		if r, ok := fd.Body.List[len(fd.Body.List)-1].(*ast.ReturnStmt); ok && len(r.Results) == 1 {
-			gate = sexp(r.Results[0], simpleDefs(fd.Body), ren, nil, 0)
+			gate = sx{tp, nil}.str(r.Results[0], simpleDefs(fd.Body), ren, 0)
 		}
 	}
+	updGate := []string{"missing"}
+	if fd := ap.fn("EndBlocker"); fd != nil {
+		updGate = gateOf(ap, fd, "UpdateExchangeRates")
+	}
 	expiry, expiryText := "ExpiryOther", ""
-	if fd := kf["clearExchangeRates"]; fd != nil && fd.Body != nil {
-		defs := simpleDefs(fd.Body)
-		for name, rhs := range defs {
-			if strings.Contains(strings.ToLower(name), "expired") {
-				sub := map[string]ast.Expr{}
-				for k, v := range defs {
-					if k != name {
-						sub[k] = v
-					}
-				}
-				expiryText = sexp(rhs, sub, nil, map[string]bool{"CreatedBlock": true, "ExpirationBlocks": true}, 0)
+	if fd := kp.fn("clearExchangeRates"); fd != nil {
+		kp.inspectClosure(fd, func(o *ast.FuncDecl, n ast.Node) bool {
+			a, ok := n.(*ast.AssignStmt)
+			if !ok || a.Tok != token.DEFINE || len(a.Lhs) != 1 || len(a.Rhs) != 1 || expiryText != "" {
+				return true
 			}
-		}
+			id, ok := a.Lhs[0].(*ast.Ident)
+			if !ok || !strings.Contains(strings.ToLower(id.Name), "expired") {
+				return true
+			}
+			sub := simpleDefs(o.Body)
+			delete(sub, id.Name)
+			expiryText = sx{kp, map[string]bool{"CreatedBlock": true, "ExpirationBlocks": true}}.str(a.Rhs[0], sub, nil, 0)
+			return true
+		})
 		switch expiryText {
 		case "(&& (>= H CreatedBlock) (>= (- H CreatedBlock) ExpirationBlocks))":
 			expiry = "ExpiryNoWrap"
@@ -501,17 +373,16 @@ func main() {
 		}
 	}
 	lowerOK, upper, halved := false, "TallyOther", false
-	if fd := kf["Tally"]; fd != nil && fd.Body != nil {
-		lowerOK, upper, halved = tallyForm(fd)
+	if fd := kp.fn("Tally"); fd != nil {
+		lowerOK, upper, halved = tallyForm(kp, fd)
 	}
 	// Params.Validate
 	var conds []string
-	if fd := method(types, "Params", "Validate"); fd != nil {
+	if fd := tp.fn("Validate", "Params"); fd != nil {
 		rn := recvName(fd)
-		ast.Inspect(fd.Body, func(n ast.Node) bool {
-			if i, ok := n.(*ast.IfStmt); ok && i.Init == nil {
-				c := sexp(i.Cond, nil, map[string]string{rn: "p"}, nil, 0)
-				conds = append(conds, c)
+		tp.inspectClosure(fd, func(o *ast.FuncDecl, n ast.Node) bool {
+			if i, ok := n.(*ast.IfStmt); ok && i.Init == nil && o == fd {
+				conds = append(conds, sx{tp, nil}.str(i.Cond, nil, map[string]string{rn: "p"}, 0))
 			}
 			return true
 		})
@@ -525,7 +396,7 @@ func main() {
 		return false
 	}
 	editValidates := false
-	if fd := kf["EditOracleParams"]; fd != nil && fd.Body != nil {
+	if fd := kp.fn("EditOracleParams"); fd != nil {
 		var vpos, upos token.Pos
 		ast.Inspect(fd.Body, func(n ast.Node) bool {
 			if _, name, _, ok := callSelNode(n); ok {
@@ -544,10 +415,12 @@ func main() {
 	fmt.Println("Require Import Nib.C10.Cfg.")
 	fmt.Println("From Coq Require Import String List. Import ListNotations. Open Scope string_scope.")
 	fmt.Println("Definition current_cfg : code_cfg := {|")
-	fmt.Printf("  cc_pipeline := %s;\n", coqList(pipe))
-	fmt.Printf("  cc_early_returns := %d;\n", early)
+	fmt.Printf("  cc_pipeline := %s;\n", coqStrs(pipe))
+	fmt.Printf("  cc_clear_votes_guards := %d;\n", clearGuards)
+	fmt.Printf("  cc_update_gate := %s;\n", coqStrs(updGate))
 	fmt.Printf("  cc_rounding := %s;\n", round)
 	fmt.Printf("  cc_threshold_from_param := %s;\n", CoqBool(fromThr))
+	fmt.Printf("  cc_skips_ineligible := %s;\n", CoqBool(skips))
 	fmt.Printf("  cc_power_per_tuple := %s;\n", CoqBool(ppt))
 	fmt.Printf("  cc_median_sorts := %s;\n", CoqBool(mf.sorts))
 	fmt.Printf("  cc_median_guard := %s;\n", CoqBool(mf.guard))
@@ -566,5 +439,5 @@ func main() {
 	fmt.Printf("  cc_edit_validates := %s |}.\n", CoqBool(editValidates))
 	fmt.Println("(* diagnostics (not used by the obligations) *)")
 	fmt.Printf("Definition expiry_normal_form : string := %s.\n", CoqString(expiryText))
-	fmt.Printf("Definition validate_conditions : list string := %s.\n", coqList(conds))
+	fmt.Printf("Definition validate_conditions : list string := %s.\n", coqStrs(conds))
 }
